@@ -224,6 +224,38 @@ func c12(c *Ctx) {
 			c.undecided(r8, fnName(f)+":floor", fmt.Sprintf("%d stores to the flags byte found (3 confirmed by hand)", n))
 		}
 	}
+	// ---- C12.9 generated keys continue after the greatest key of the table -------------------------------------------
+	// "auto-generated keys never collide with existing ones": table.maxPK is the source of generated keys (maxPK++); an
+	// explicit value above it is accepted as a new row, so it has to raise maxPK before the row is written, or the next
+	// generated key of the same transaction is that value again
+	r9 := "C12.9/generated-keys-follow-explicit-ones"
+	if f := c.mustFn(r9, "embedded/sql.(*UpsertIntoStmt).execAt"); f != nil {
+		above := whenCond(true, func(a string) bool { return strings.Contains(a, ".maxPK < ") })
+		var edges []cfgEdge
+		for _, b := range f.Blocks {
+			for si := range b.Succs {
+				if above(b, si) {
+					edges = append(edges, cfgEdge{b, si})
+				}
+			}
+		}
+		sink := callTo(sqlTxT + "doUpsert")
+		if len(edges) == 0 {
+			c.fail(r9, fnName(f)+":explicit-key-raises-maxPK", c.pos(f.Pos()), "no branch on `explicit value > table.maxPK` before the row sink: an explicit key above the maximum is written without raising maxPK, the next generated key collides with it")
+		} else {
+			q := &pathQ{fn: f, fromEdges: edges, to: sink, via: storeTo("Table.maxPK")}
+			w := q.bypass()
+			c.check(w == nil, r9, fnName(f)+":explicit-key-raises-maxPK", c.pos(f.Pos()), "on the `value > maxPK` edge the row sink is reached only after maxPK was raised", "an explicit key above table.maxPK reaches the row sink without raising maxPK: "+c.witnessStr(w))
+		}
+		// generated keys are maxPK+1
+		gen := 0
+		for _, st := range sites(f, storeTo("Table.maxPK")) {
+			if strings.Contains(desc(st.(*ssa.Store).Val), "maxPK + const:1") {
+				gen++
+			}
+		}
+		c.check(gen >= 1, r9, fnName(f)+":generated-key-is-maxPK+1", c.pos(f.Pos()), "generated keys are maxPK+1", "no maxPK+1 generation site found")
+	}
 	c13CatalogCache(c, "C12.7/catalog-cache-coherence")
 	c13CloneIsDeep(c, "C12.7/catalog-clone-is-deep")
 
